@@ -273,6 +273,24 @@ def judge(events, reqlog, devs, final_instances, errors, left_after_stop=()):
                     and (first(i, "finalize") is None or first(i, "finalize")[0] >= nev) for i in by_iid if first(i, "init"))
         kind = "same-name" if len({r[0] for r in reqs}) == 1 else "overlap"
         both_started[g] = (kind, "older-running" if older else "no-older", q, sorted((r[0], r[1][-4:]) for r in reqs))
+    # of several requests of one group that arrive in the same tick the one requested last wins: it runs, the others do not
+    # execute after that tick
+    for (q, g), reqs in sorted(arrivals.items()):
+        rids = [r[1] for r in reqs]
+        if len(reqs) < 2 or len(set(rids)) < 2 or g in both_started or any(r in pre_cancelled or r in cancel_ids for r in rids) \
+                or stop_ticks or errors:
+            continue
+        winner = rids[-1]
+        w_exec = [tk for i, tk, p in by_iid.get(winner, []) if p == "exec"]
+        losers_late = [(name_of.get(r, "?"), tk) for r in rids[:-1] if r != winner for i, tk, p in by_iid.get(r, []) if p == "exec" and tk > q]
+        if not w_exec and q < HORIZON - SETTLE:
+            kind = "same-name" if len({r[0] for r in reqs}) == 1 else "overlap"
+            probs.append((f"C11:same-tick-requests:last-request-did-not-run:{kind}",
+                          f"requests {[(r[0], r[1][-4:]) for r in reqs]} arrived in tick {q} in this order; the last one never executed "
+                          f"(events of the others: {[(name_of.get(r, '?'), [(tk, p) for _, tk, p in by_iid.get(r, [])]) for r in rids[:-1]]})"))
+        elif losers_late:
+            probs.append(("C11:same-tick-requests:earlier-request-kept-running",
+                          f"requests {[(r[0], r[1][-4:]) for r in reqs]} arrived in tick {q}; an earlier one still executes later: {losers_late}"))
     for g, (kind, older, q, pair) in sorted(both_started.items()):
         if not any(s_[2] & pre_cancelled for s_ in sym if s_[3] == g):
             probs.append((f"C11:requests-in-same-tick-both-started:{kind}:{older}",
